@@ -5,8 +5,8 @@ import json, os
 import vf, ringlib
 
 # which switches describe the code in /repo (set to True once the corresponding fix: commit is in)
-CODE_FIXPRED = False
-CODE_FIXLEAVE = False
+CODE_FIXPRED = True
+CODE_FIXLEAVE = True
 
 
 def engine(ck, pid, kinds, n_quick=40, n_thorough=400, gen_kw=None, mc=True):
